@@ -89,7 +89,7 @@ def wf_jobs(prop, tier, rules=None, cell=(2024, 2), lift=True, timeout=None, ext
                 sp = dict(spec)
                 sp["units"] = [ui]
                 if ui == 5:      # MONTHS: year roll-over on a symbolic year is the expensive part
-                    sp["maxdur"] = 13 if tier == "quick" else 60
+                    sp["maxdur"] = 13 if tier == "quick" else 24
                 variants.append((sp, "/unit%d" % ui))
         for spec_v, suffix in variants:
             cell_v = spec_v.pop("_cell", None) or cell
@@ -133,7 +133,7 @@ def wf_jobs(prop, tier, rules=None, cell=(2024, 2), lift=True, timeout=None, ext
                 npod = k.count("POD")
                 if npod >= 2:
                     spec["pods"] = mp
-                elif npod and tier == "quick":
+                elif npod:
                     spec["pods"] = qp
                 if k.count("year"):
                     spec["ym"] = [[2024, 2], [2023, 2]]
